@@ -26,6 +26,7 @@ var profiles = map[string]Profile{
 	"tinyacc": {Name: "tinyacc", Clients: 1, Resources: 2, Stimuli: 16, Refs: true, Unsub: true, Reaccess: true, Tokens: true, Calls: true, Denials: true, Clean: true},
 	"tinyrefs": {Name: "tinyrefs", Clients: 1, Resources: 3, Stimuli: 16, Refs: true, Collections: true, Unsub: true, Clean: true},
 	"scacc": {Name: "scacc", Clients: 2, Resources: 3, Refs: true, Unsub: true, Reaccess: true, Tokens: true, Calls: true, Denials: true, Scenario: "acc"},
+	"accchurn": {Name: "accchurn", Clients: 3, Resources: 3, Stimuli: 24, Unsub: true, Reaccess: true, Tokens: true, Calls: true, Denials: true, Resets: true, Disconnect: true, Clean: true, Endgame: true},
 	"reset": {Name: "reset", Clients: 2, Resources: 4, Stimuli: 22, Refs: true, Collections: true, Unsub: true, Resets: true, Clean: true},
 	"malformed": {Name: "malformed", Clients: 2, Resources: 4, Stimuli: 26, Refs: true, Collections: true, Unsub: true, Calls: true, Malformed: true, Clean: true, Endgame: true},
 	"stop":  {Name: "stop", Clients: 3, Resources: 4, Stimuli: 20, Refs: true, Collections: true, Unsub: true, Calls: true, Disconnect: true, Evict: true, StopAt: true},
